@@ -67,7 +67,7 @@ func GenChainPlan(rt *rapid.T, p *GenParams) *ChainPlan {
 	if len(p.Windows) > 0 {
 		pl.Window = rapid.SampledFrom(p.Windows).Draw(rt, "window")
 	}
-	pl.UtxoCache = rapid.SampledFrom([]int{1000, 1, 2, 5}).Draw(rt, "utxocache")
+	pl.UtxoCache = rapid.SampledFrom([]int{1000, 1000, 200, 3, 1}).Draw(rt, "utxocache")
 	if p.SmallCache {
 		pl.BlkCache = rapid.SampledFrom([]int{0, 1, 2, 4}).Draw(rt, "blkcache")
 		pl.ExtCache = rapid.SampledFrom([]int{0, 1, 2, 4}).Draw(rt, "extcache")
